@@ -315,6 +315,22 @@ func c02loopback(c *Ctx, a *procAnchors) {
 				} else {
 					sent = sd.X
 				}
+				// a local of the closure initialised from a captured variable (`obsv := captured`),
+				// or a load of a captured cell: follow it to the value in broadcastSignature
+				for d := 0; d < 4; d++ {
+					r := resolveSpill(sent)
+					if fv, ok := r.(*ssa.FreeVar); ok && fv.Parent() == cl {
+						for k, v := range cl.FreeVars {
+							if v == fv {
+								r = mc.Bindings[k]
+							}
+						}
+					}
+					if r == sent {
+						break
+					}
+					sent = r
+				}
 				goSend = g
 			}
 		}
